@@ -1,9 +1,9 @@
 """C19 -- a function is only produced for a fully initialised and stepped network.
 
 Bounded real histories (all sequences up to the length bound, SX and MX) over
-   step(T1) | step(T2) | init(L1) | init(O1) | init(D1) | add ramp O2 at N2 | add branch N2-L3->N4+D2
-   | compile(level 0|1|2)
-on a valid two-link network (metered ramp, congested destination).  A small abstract model tracks
+   step(T1) | step(T2) | init(L1) | init(O1) | init(destination) | add ramp O2 at N2 | add branch N2-L3->N4+D2
+   | replace the destination by a congested one | compile(level 0|1|2)
+on a valid two-link network (metered ramp, free destination that can be replaced by a congested one).  A small abstract model tracks
 per element {uninitialised, initialised, stepped-current, stepped-stale}.  At every compile:
    raises RuntimeError  <=>  some element with declared states/actions/disturbances lacks them, or an
    element with states lacks a next state, or a next state predates a re-initialisation;
@@ -24,14 +24,14 @@ from vlib.topo import LinkSpec, Topo
 
 PID = "C19"
 T1, T2 = 1 / 256, 1 / 128
-OPS = ["step(T1)", "step(T2)", "init(L1)", "init(O1)", "init(D1)", "add_ramp", "add_branch", "compile(0)", "compile(1)", "compile(2)"]
+OPS = ["step(T1)", "step(T2)", "init(L1)", "init(O1)", "init(D1)", "add_ramp", "add_branch", "replace_dest", "compile(0)", "compile(1)", "compile(2)"]
 
 
-def topo_for(has_ramp, has_branch):
+def topo_for(has_ramp, has_branch, dest="D1"):
     links = [LinkSpec("L1", "N1", "N2", 2), LinkSpec("L2", "N2", "N3", 1)]
     nodes = ["N1", "N2", "N3"]
     origins = {"N1": ("O1", "ramp_out")}
-    dests = {"N3": ("D1", "cong")}
+    dests = {"N3": (dest, "free" if dest == "D1" else "cong")}
     if has_ramp and not has_branch:
         origins["N2"] = ("O2", "simp_lim")
     if has_branch:
@@ -54,7 +54,8 @@ class World:
         self.nodes = {n: M.Node(name=n) for n in ("N1", "N2", "N3", "N4")}
         self.links = {"L1": mk("L1", 2), "L2": mk("L2", 1), "L3": mk("L3", 1)}
         self.origins = {"O1": M.MeteredOnRamp(v["C_O1"], name="O1"), "O2": M.SimplifiedMeteredOnRamp(v["C_O2"], name="O2")}
-        self.dests = {"D1": M.CongestedDestination(name="D1"), "D2": M.Destination(name="D2")}
+        self.dests = {"D1": M.Destination(name="D1"), "D2": M.Destination(name="D2"), "D3": M.CongestedDestination(name="D3")}
+        self.dest_name = "D1"
         self.net = M.Network(name="c19").add_path([self.nodes["N1"], self.links["L1"], self.nodes["N2"], self.links["L2"], self.nodes["N3"]],
                                                   origin=self.origins["O1"], destination=self.dests["D1"])
         self.engine = runs.casadi_engine(symtype)
@@ -65,7 +66,7 @@ class World:
         self.lastT = None
 
     def has_vars(self, e):
-        return e != "D2"  # the free destination declares no variables
+        return e not in ("D1", "D2")  # free destinations declare no variables; the congested destination D3 declares a disturbance
 
     def has_states(self, e):
         return e[0] in "LO"
@@ -82,17 +83,33 @@ class World:
             for e in self.present:
                 self.status[e] = "current"
             self.lastT = T
+            self.topo_at_step = topo_for(self.has_ramp, self.has_branch, self.dest_name)
+            return "ok", None
+        if op == "replace_dest":
+            if self.dest_name == "D3":
+                return "skip", None
+            # a new congested destination (no states, but a disturbance) replaces the old one on the same node
+            self.net.add_destination(self.dests["D3"], self.nodes["N3"])
+            self.present = [("D3" if e == "D1" else e) for e in self.present]
+            self.status.pop("D1", None)
+            self.status["D3"] = "uninit"
+            self.dest_name = "D3"
             return "ok", None
         if op.startswith("init"):
             e = op[5:-1]
+            if e == "D1":
+                e = self.dest_name
             el = self.links.get(e) or self.origins.get(e) or self.dests.get(e)
             el.init_vars(engine=self.engine)
-            # re-initialisation: every next state computed before now refers to replaced symbols
+            if not self.has_vars(e):
+                return "ok", None  # nothing is (re-)created for an element without variables
+            if self.status[e] == "uninit":
+                self.status[e] = "init"  # first initialisation of a newly added element: nothing computed so far refers to it
+                return "ok", None
+            # RE-initialisation: every next state computed before now refers to replaced symbols
             for x in self.present:
                 if self.status[x] in ("current", "stale"):
                     self.status[x] = "stale"
-            if self.status[e] == "uninit":
-                self.status[e] = "init"
             return "ok", None
         if op == "add_ramp":
             if self.has_ramp or self.has_branch:
@@ -135,7 +152,7 @@ class World:
 
 
 def check_function(w: World, c, F, prover, acc, hist):
-    topo = topo_for(w.has_ramp, w.has_branch)
+    topo = topo_for(w.has_ramp, w.has_branch, w.dest_name)
     if F.has_free():
         return "returned function has free symbols"
     if c != 0:
@@ -149,7 +166,7 @@ def check_function(w: World, c, F, prover, acc, hist):
         named, _ = sx2smt.translate(F, layout.binder(ins))
     except (symx.Inconclusive, symx.UnsupportedOp) as e:
         return f"layout of the returned function: {e}"
-    ref = ref_metanet.Ref(topo)
+    ref = ref_metanet.Ref(getattr(w, "topo_at_step", topo))  # the network as it was when it was last stepped
     for (nm, vals), (_, slots) in zip(named, outs):
         for s, (_, el, st, i) in zip(vals, slots):
             r = netcheck.apply_numeric(ref.next[(el, st)][i], numeric)
